@@ -13,7 +13,7 @@ RULE = ("goal regions with 1..4 goal states x every subset of {position, orienta
 ANCHORS = ["GoalRegion.is_reached", "GoalRegion._harmonize_state_types", "PlanningProblem.goal_reached",
            "AngleInterval.contains", "Interval.contains"]
 REQUIRED = ["contract.GoalRegion.is_reached", "contract.PlanningProblem.goal_reached", "pos.rect", "pos.rect-rot",
-            "pos.circle", "pos.polygon", "pos.group", "pos.lanelets", "angle.len>pi", "angle.wrap", "state.PMState",
+            "pos.circle", "pos.polygon", "pos.group", "pos.lanelets", "pos.rect-quarter-turn", "angle.len>pi", "angle.wrap", "state.PMState",
             "state.KSState", "state.MBState", "state.CustomState", "pm.vx<0", "value.int", "value.numpy",
             "on-boundary.time", "on-boundary.velocity", "on-boundary.position", "expected.True", "expected.False",
             "multi-goal-state", "requery-after.goal.translate_rotate", "requery-after.lanelet-goal",
@@ -41,7 +41,12 @@ def gen_goal_state(G, rng, ctx, fields):
         if k == "rect":
             kw["position"] = Rectangle(rng.choice([2.0, 4.0, 8.5]), rng.choice([1.0, 2.0, 3.5]), c, 0.0)
         elif k == "rect-rot":
-            kw["position"] = Rectangle(rng.choice([2.0, 4.0]), rng.choice([1.0, 2.0]), c, rng.uniform(-3, 3))
+            # general headings and exact quarter / half turns (a goal across the road: length and width change roles)
+            kw["position"] = Rectangle(rng.choice([2.0, 4.0]), rng.choice([1.0, 2.0]), c, rng.choice(
+                [rng.uniform(-3, 3), rng.uniform(-3, 3), math.pi / 2, -math.pi / 2, math.pi, 1.5 * math.pi, -math.pi,
+                 -1.5 * math.pi]))
+            if abs(math.sin(kw["position"].orientation)) == 1.0 and kw["position"].length != kw["position"].width:
+                ctx.feature("pos.rect-quarter-turn")
         elif k == "circle":
             kw["position"] = Circle(rng.choice([1.0, 2.5, 5.0]), c)
         elif k == "polygon":
